@@ -78,6 +78,28 @@ mod types {
         pub cache: u8,
     }
 
+    /// a self-nesting declaration (decoded at depth ~50 by several threads at once)
+    #[derive(Debug, PartialEq, Clone, BinaryCodec)]
+    #[evolution(FieldAdded("tag", 0u8))]
+    pub struct Link {
+        pub v: u32,
+        pub tag: u8,
+        pub next: Option<Box<Link>>,
+    }
+
+    /// a client codec storing compressed frames at a level of its own
+    pub struct Frame(pub Vec<u8>, pub u32);
+    impl BinarySerializer for Frame {
+        fn serialize<O: BinaryOutput>(&self, context: &mut SerializationContext<O>) -> desert::Result<()> {
+            context.write_compressed(&self.0, flate2::Compression::new(self.1))
+        }
+    }
+    impl BinaryDeserializer for Frame {
+        fn deserialize(context: &mut DeserializationContext<'_>) -> desert::Result<Self> {
+            Ok(Frame(context.read_compressed()?, 0))
+        }
+    }
+
     /// a client codec that fails after having written its payload
     pub struct Fragile {
         pub text: String,
@@ -223,7 +245,27 @@ fn tagged_result(r: desert::Result<Tagged>) -> String {
     }
 }
 
-pub const NSPECS: usize = 40;
+fn chain(n: u32) -> Link {
+    let mut l = Link { v: 0, tag: 9, next: None };
+    for i in 1..n {
+        l = Link { v: i, tag: (i % 7) as u8, next: Some(Box::new(l)) };
+    }
+    l
+}
+fn text(n: usize) -> Vec<u8> {
+    (0..n).map(|i| b"the quick brown fox "[i % 20]).collect()
+}
+fn frame_result(level: u32, n: usize) -> String {
+    match desert::serialize_to_byte_vec(&Frame(text(n), level)) {
+        Ok(b) => match desert::deserialize::<Frame>(&b) {
+            Ok(f) => format!("ok:{} bytes in a frame of {}: {}", f.0.len(), b.len(), hex(&b[..b.len().min(24)])),
+            Err(e) => format!("err:{e:?}"),
+        },
+        Err(e) => format!("err:{e:?}"),
+    }
+}
+
+pub const NSPECS: usize = 47;
 
 /// performs call spec `i` and renders its result
 pub fn call(i: usize) -> String {
@@ -264,6 +306,18 @@ pub fn call(i: usize) -> String {
         // deduplicated strings next to removed-field names of the header
         34..=36 => enc(&tagged(i), i),
         37..=39 => tagged_result(desert::serialize_to_byte_vec(&tagged(i)).and_then(|b| desert::deserialize::<Tagged>(&b))),
+        // a deep self-nesting value
+        40 => round(&chain(50)),
+        41 => enc(&chain(40), 2),
+        // compressed frames at different levels, and a damaged one in between
+        42 => frame_result(9, 2000),
+        43 => frame_result(0, 300),
+        44 => frame_result(1, 2000),
+        45 => frame_result(6, 70),
+        46 => dec::<(u8, u8)>(&[0, 1]).replace("ok", "ok") + &match desert::deserialize::<Frame>(&[9, 4, 0xff, 0xff, 0xff, 0xff]) {
+            Ok(f) => format!("|ok:{}", f.0.len()),
+            Err(e) => format!("|err:{e:?}"),
+        },
         _ => panic!("no call spec {i}"),
     }
 }
